@@ -33,23 +33,23 @@ Print Assumptions C06_legacy_rename_fault_unrepaired_refuted.
 (** Non-vacuity: a ranged download (10 bytes, chunk 4) whose range 1 is hit
     by a stream fault after 2 bytes and retried, IO writes interleaved; a
     single GET failing for good; a failing rename. *)
-Definition nv_obj : bytes := [10; 11; 12; 13; 14; 15; 16; 17; 18; 19].
-Definition nv_fault : attempt :=
+Definition nv6_obj : bytes := [10; 11; 12; 13; 14; 15; 16; 17; 18; 19].
+Definition nv6_fault : attempt :=
   {| a_get := None; a_open := None; a_reads := [1; 3]; a_fail_after := Some (2, Retryable);
      a_write_fail := None |}.
-Definition nv_oracle (rename_ok : bool) : doracle :=
-  {| o_head_ok := true; o_single := [nv_fault; nv_fault]; o_ranged := [[]; [nv_fault]];
+Definition nv6_oracle (rename_ok : bool) : doracle :=
+  {| o_head_ok := true; o_single := [nv6_fault; nv6_fault]; o_ranged := [[]; [nv6_fault]];
      o_started := 3; o_sched := [2%nat; 1%nat; 1%nat; 0%nat]; o_io_open_ok := true;
      o_io_fail := None; o_rename_ok := rename_ok |}.
 
 Example C06_legacy_nonvacuous :
-  (let (evs, out) := legacy_download 5 4 2 nv_obj (nv_oracle true) in
+  (let (evs, out) := legacy_download 5 4 2 nv6_obj (nv6_oracle true) in
    out = DSuccess /\ length evs = 12%nat /\
-   final_fs (Some [7]) evs = {| temp := None; dest := Some nv_obj |} /\
-   final_fs (Some [7]) (firstn 11 evs) = {| temp := Some nv_obj; dest := Some [7] |}) /\
-  (let (evs, out) := legacy_download 50 4 2 nv_obj (nv_oracle true) in
+   final_fs (Some [7]) evs = {| temp := None; dest := Some nv6_obj |} /\
+   final_fs (Some [7]) (firstn 11 evs) = {| temp := Some nv6_obj; dest := Some [7] |}) /\
+  (let (evs, out) := legacy_download 50 4 2 nv6_obj (nv6_oracle true) in
    out = DRetriesExceeded /\ final_fs (Some [7]) evs = {| temp := None; dest := Some [7] |} /\
    final_fs (Some [7]) (firstn 9 evs) = {| temp := Some [10; 11]; dest := Some [7] |}) /\
-  (let (evs, out) := legacy_download 5 4 2 nv_obj (nv_oracle false) in
+  (let (evs, out) := legacy_download 5 4 2 nv6_obj (nv6_oracle false) in
    out = DRenameErr /\ final_fs None evs = {| temp := None; dest := None |}).
 Proof. vm_compute. repeat split. Qed.
